@@ -133,6 +133,7 @@ func main() {
 }
 
 type rewriter struct {
+	chanNames map[string]bool
 	fset    *token.FileSet
 	rel     string
 	needVrt bool
@@ -175,6 +176,55 @@ func rewriteFile(path, rel string) ([]byte, bool, error) {
 			pkgImported[p] = true
 		}
 	}
+	// names that are syntactically known to be channels in this file: assigned from
+	// make(chan ...), or declared with a channel type (variables, parameters, struct fields)
+	chanNames := map[string]bool{}
+	ast.Inspect(f, func(n ast.Node) bool {
+		isMakeChan := func(e ast.Expr) bool {
+			c, ok := e.(*ast.CallExpr)
+			if !ok || len(c.Args) == 0 {
+				return false
+			}
+			id, ok := c.Fun.(*ast.Ident)
+			if !ok || id.Name != "make" {
+				return false
+			}
+			_, ok = c.Args[0].(*ast.ChanType)
+			return ok
+		}
+		switch d := n.(type) {
+		case *ast.AssignStmt:
+			for i, r := range d.Rhs {
+				if isMakeChan(r) && i < len(d.Lhs) {
+					switch l := d.Lhs[i].(type) {
+					case *ast.Ident:
+						chanNames[l.Name] = true
+					case *ast.SelectorExpr:
+						chanNames[l.Sel.Name] = true
+					}
+				}
+			}
+		case *ast.ValueSpec:
+			_, isChan := d.Type.(*ast.ChanType)
+			for i, nm := range d.Names {
+				if isChan || (i < len(d.Values) && isMakeChan(d.Values[i])) {
+					chanNames[nm.Name] = true
+				}
+			}
+		case *ast.Field:
+			if _, ok := d.Type.(*ast.ChanType); ok {
+				for _, nm := range d.Names {
+					chanNames[nm.Name] = true
+				}
+			}
+		case *ast.KeyValueExpr:
+			if k, ok := d.Key.(*ast.Ident); ok && isMakeChan(d.Value) {
+				chanNames[k.Name] = true
+			}
+		}
+		return true
+	})
+	rw.chanNames = chanNames
 	// statements
 	ast.Inspect(f, func(n ast.Node) bool {
 		switch b := n.(type) {
@@ -320,6 +370,8 @@ func (rw *rewriter) stmt(s ast.Stmt) ast.Stmt {
 			return r
 		}
 		return rw.selectGeneral(st)
+	case *ast.RangeStmt:
+		return rw.rangeChan(st)
 	case *ast.SendStmt:
 		rw.needVrt, rw.changed = true, true
 		rep.Rewrites["send"]++
@@ -390,6 +442,45 @@ func (rw *rewriter) goStmt(g *ast.GoStmt) ast.Stmt {
 func (rw *rewriter) newTmp() string {
 	rw.tmp++
 	return fmt.Sprintf("vrtTmp%d", rw.tmp)
+}
+
+// rangeChan rewrites `for v := range ch { body }` over an expression that is syntactically
+// known to be a channel into `for { v, ok := vrt.RecvOk(ch); if !ok { break }; body }`.
+func (rw *rewriter) rangeChan(r *ast.RangeStmt) ast.Stmt {
+	known := false
+	switch x := r.X.(type) {
+	case *ast.Ident:
+		known = rw.chanNames[x.Name]
+	case *ast.SelectorExpr:
+		known = rw.chanNames[x.Sel.Name]
+	}
+	if !known || r.Value != nil {
+		return nil
+	}
+	okName := rw.newTmp()
+	var lhs0 ast.Expr = ast.NewIdent("_")
+	tok := token.DEFINE
+	if r.Key != nil {
+		lhs0 = r.Key
+		if r.Tok == token.ASSIGN {
+			// `for v = range ch`: v exists; declare only ok
+			tok = token.ASSIGN
+		}
+	}
+	recv := &ast.CallExpr{Fun: sel("vrt", "RecvOk"), Args: []ast.Expr{r.X}}
+	var head []ast.Stmt
+	if tok == token.ASSIGN {
+		head = append(head,
+			&ast.DeclStmt{Decl: &ast.GenDecl{Tok: token.VAR, Specs: []ast.Spec{&ast.ValueSpec{Names: []*ast.Ident{ast.NewIdent(okName)}, Type: ast.NewIdent("bool")}}}},
+			&ast.AssignStmt{Lhs: []ast.Expr{lhs0, ast.NewIdent(okName)}, Tok: token.ASSIGN, Rhs: []ast.Expr{recv}})
+	} else {
+		head = append(head, &ast.AssignStmt{Lhs: []ast.Expr{lhs0, ast.NewIdent(okName)}, Tok: token.DEFINE, Rhs: []ast.Expr{recv}})
+	}
+	head = append(head, &ast.IfStmt{Cond: &ast.UnaryExpr{Op: token.NOT, X: ast.NewIdent(okName)}, Body: &ast.BlockStmt{List: []ast.Stmt{&ast.BranchStmt{Tok: token.BREAK}}}})
+	body := &ast.BlockStmt{Lbrace: r.Body.Lbrace, Rbrace: r.Body.Rbrace, List: append(head, r.Body.List...)}
+	rw.needVrt, rw.changed = true, true
+	rep.Rewrites["range chan"]++
+	return &ast.ForStmt{For: r.For, Body: body}
 }
 
 // selectGeneral rewrites a select with send cases and/or receives whose value is used.
